@@ -52,10 +52,13 @@ def case_strategy(draw):
         k = draw(st.integers(0, 2))
         t = draw(st.sampled_from([0, 1, m - 1, 1023, 1024, 1025, 1026]))
         t = min(t, m - 1)
-    nbad = draw(st.integers(0, 4))
+    nbad = draw(st.one_of(st.integers(0, 4), st.integers(0, 4), st.integers(0, 4), st.integers(33, 70)))    # also more than any small report queue holds
     bad = [[draw(st.sampled_from(['few', 'many', 'empty', 'single', 'openquote'])),
             draw(st.sampled_from(['first', 'last', 'rand'])), draw(st.integers(0, 10**6))] for _ in range(nbad)]
     return {'ncols': ncols, 'm': m, 's': s, 'k': k, 't': t, 'bad': bad, 'seed': draw(st.integers(0, 2**32 - 1)),
+            # one feature column is exploded into per-token indicator columns; a token that first occurs late in the file makes the
+            # set of scored pairs differ between mini-batches
+            'explode': draw(st.integers(0, 3)) == 0 and ncols >= 2,
             'trail': draw(st.integers(0, 3)), 'offgrid_bad': draw(st.booleans()), 'final_newline': draw(st.sampled_from([True, True, False])),
             'heuristic': draw(st.sampled_from(['MI-numba-randomized', 'MI-numba-randomized', 'max-value-coverage', 'Constant'])),
             'header_rows': draw(st.lists(st.integers(0, 10**6), max_size=2)) if draw(st.integers(0, 3)) == 0 else [],
@@ -95,9 +98,17 @@ def build_lines(case):
     V = case['k'] * case['m'] + case['t']
     nv = len(VALUES)
 
+    made = [0]
+    ex_col = next((j for j, c in enumerate(cols) if c != 'label'), None) if case.get('explode') else None
+    late_after = max(1, (V * s) // 2)
+
     def valid_row():
         base = int(rng.integers(0, 3))
-        return [VALUES[(base + int(rng.integers(0, 2)) * (j + 1)) % nv] if j else VALUES[base] for j in range(ncols)]
+        row = [VALUES[(base + int(rng.integers(0, 2)) * (j + 1)) % nv] if j else VALUES[base] for j in range(ncols)]
+        made[0] += 1
+        if ex_col is not None and made[0] > late_after and rng.random() < 0.5:
+            row[ex_col] = (row[ex_col] + '-zz') if row[ex_col] else 'zz'
+        return row
 
     def malformed(kind):
         r = valid_row()
@@ -208,8 +219,11 @@ def strip_annot(name, cols):
 
 def oracle(case, rec):
     cols, lines = build_lines(case)
-    if not case.get('final_newline', True) and lines and lines[-1] == '':
-        lines = lines[:-1]      # an empty last line without terminator is not a line of the file
+    final_newline = case.get('final_newline', True)
+    if not final_newline and lines and lines[-1] == '':
+        # an empty last line without terminator is not a line of the file: the text is the remaining lines, each terminated
+        lines = lines[:-1]
+        final_newline = True
     m, s, ncols = case['m'], case['s'], case['ncols']
     batches, invalid = batch_model(lines, m, s, ncols)
     V = case['k'] * m + case['t']
@@ -222,11 +236,15 @@ def oracle(case, rec):
         rec.cls('malformed-on-grid')
     if case.get('header_rows'):
         rec.cls('data-row-equal-to-header')
-    if not case.get('final_newline', True):
+    if not final_newline:
         rec.cls('no-final-newline')
     rec.cls('h=' + case['heuristic'], 's=%d' % s if s <= 4 else 's>=5')
     if len(lines) > 65536:
         rec.cls('file>65536-lines')
+    if case.get('explode'):
+        rec.cls('exploded-multivalue-column')
+    if len(case['bad']) > 32:
+        rec.cls('malformed-on-grid>32')
     if any(b[0] == 'openquote' for b in case['bad']):
         rec.cls('malformed:unclosed-quote')
     tmp = tempfile.mkdtemp(prefix='c08-')
@@ -240,12 +258,13 @@ def oracle(case, rec):
             fh.write(','.join(cols) + '\n')
             for li, ln in enumerate(lines):
                 last = li == len(lines) - 1
-                fh.write(ln + ('' if last and not case.get('final_newline', True) else '\n'))
+                fh.write(ln + ('' if last and not final_newline else '\n'))
         args = stubs.make_args(heuristic=case['heuristic'], target_ranking_only='False' if case['pairwise'] else 'True',
                                minibatch_size=m, subsampling=s, data_path=os.path.join(tmp, 'data'), data_source='csv-raw',
                                output_folder=os.path.join(tmp, 'out'),
                                include_cardinality_in_feature_names='True' if case['annot'] else 'False',
-                               interaction_order=int(case.get('order', 1)))
+                               interaction_order=int(case.get('order', 1)),
+                               **({'explode_multivalue_features': next(c for c in cols if c != 'label')} if case.get('explode') else {}))
         # ---- phase 1: direct call of the streaming loop with spies ---------------------------------
         seen_batches = []
 
@@ -333,7 +352,7 @@ def oracle(case, rec):
             raise Violation('pairwise_ranks.tsv is not in ascending score order', kind='C08/order')
         with open(os.path.join(tmp, 'out', 'combination_estimation_counts.json')) as fh:
             counts = json.load(fh)
-        if counts and not case['pairwise'] and set(counts.values()) != {len(batches)}:   # pairwise lists self pairs twice
+        if counts and not case['pairwise'] and not case.get('explode') and set(counts.values()) != {len(batches)}:   # pairwise lists self pairs twice; exploded tokens exist in some batches only
             raise Violation(f'combination_estimation_counts.json reports {sorted(set(counts.values()))} evaluations per pair, '
                             f'{len(batches)} batches were processed with a non-binding cap', kind='C08/counts')
     finally:
